@@ -29,8 +29,8 @@
 EXTENDS Integers, Sequences, TLC, Json, IOUtils
 
 TraceLog == ndJsonDeserialize(IOEnv.TRACE)
-VARIABLES l, phase, expect, alloc, worked, bad, run, snapsExp, snapIdx, ndumps
-vars == <<l, phase, expect, alloc, worked, bad, run, snapsExp, snapIdx, ndumps>>
+VARIABLES l, phase, expect, alloc, worked, bad, run, snapsExp, snapIdx, ndumps, loop
+vars == <<l, phase, expect, alloc, worked, bad, run, snapsExp, snapIdx, ndumps, loop>>
 Rec == TraceLog[l]
 IsEvent(e) == l <= Len(TraceLog) /\ Rec.e = e /\ l' = l + 1
 Tag(c, t) == IF c THEN {} ELSE {t}
@@ -38,11 +38,31 @@ AllZero(s) == \A i \in 1 .. Len(s) : s[i] = 0
 
 Min(a, b) == IF a < b THEN a ELSE b
 ToSet(q) == {q[i] : i \in 1 .. Len(q)}
+NoLoop == [at |-> "none", step |-> 0]
 NoRun == [snapmodel |-> 0, dumpmodel |-> 0, first |-> 0, fresh |-> 1, maxb |-> 1]
 Init == /\ l = 1 /\ phase = "none" /\ expect = 0 /\ alloc = <<>> /\ worked = FALSE /\ bad = {}
-        /\ run = NoRun /\ snapsExp = {} /\ snapIdx = 1 /\ ndumps = 0
+        /\ run = NoRun /\ snapsExp = {} /\ snapIdx = 1 /\ ndumps = 0 /\ loop = NoLoop
 
 Get(r, f, d) == IF f \in DOMAIN r THEN r[f] ELSE d
+
+\* ---- Layer B: the outer loop of the task-based RHD simulation (do_simulation) ----
+\*   run.init k                       the time loop starts after step k (0, or the step of the dump restarted from)
+\*   ( h.begin k+1  h.end k+1  snap.dec  [ dump.begin  fs.open  dump.end k+1 ] )*   one iteration per step
+\*   snap.fin                         after the loop
+\* LoopStep gives the next loop state and whether the event was allowed there; a mismatch means this description
+\* of the loop is out of date (reported as MODEL-DRIFT, it is not a clause of C12).
+LoopStep(lp, ev, st) ==
+    CASE ev = "run.init" -> <<[at |-> "top", step |-> st], lp.at = "none">>
+      [] ev = "h.begin" -> <<[at |-> "hydro", step |-> st], lp.at \in {"top", "decided"} /\ st = lp.step + 1>>
+      [] ev = "h.end" -> <<[lp EXCEPT !.at = "stepped"], lp.at = "hydro" /\ st = lp.step>>
+      [] ev = "snap.dec" -> <<[lp EXCEPT !.at = "decided"], lp.at = "stepped">>
+      [] ev = "dump.begin" -> <<[lp EXCEPT !.at = "dump0"], lp.at = "decided">>
+      [] ev = "fs.open" -> <<[lp EXCEPT !.at = "dump1"], lp.at = "dump0">>
+      [] ev = "dump.end" -> <<[lp EXCEPT !.at = "top"], lp.at = "dump1" /\ st = lp.step>>
+      [] ev = "snap.fin" -> <<[lp EXCEPT !.at = "fin"], lp.at \in {"top", "decided"}>>
+      [] ev = "run.end" -> <<NoLoop, lp.at \in {"none", "fin"}>>
+Loop(ev, st) == /\ loop' = LoopStep(loop, ev, st)[1]
+LoopTag(ev, st) == Tag(LoopStep(loop, ev, st)[2], "loop")
 TRun == /\ IsEvent("run") /\ phase' = "new" /\ expect' = Rec.expect /\ alloc' = <<>> /\ worked' = FALSE
         /\ bad' = bad \cup Tag(phase \in {"none", "exited"}, "order")
         /\ run' = [snapmodel |-> Get(Rec, "snapmodel", 0), dumpmodel |-> Get(Rec, "dumpmodel", 0),
@@ -51,35 +71,43 @@ TRun == /\ IsEvent("run") /\ phase' = "new" /\ expect' = Rec.expect /\ alloc' = 
            THEN /\ snapsExp' = IF Get(Rec, "snapmodel", 0) = 1 /\ Get(Rec, "first", 0) = 0 THEN {0} ELSE {}
                 /\ snapIdx' = 1
            ELSE UNCHANGED <<snapsExp, snapIdx>>        \* a restarted run continues the schedule
-        /\ ndumps' = 0
+        /\ ndumps' = 0 /\ loop' = NoLoop
 \* the decision at the end of a step
 TSnapDec == /\ IsEvent("snap.dec")
             /\ LET write == Rec.due = 1 /\ Rec.next = 1
                IN /\ snapsExp' = IF write /\ run.first <= snapIdx THEN snapsExp \cup {snapIdx} ELSE snapsExp
                   /\ snapIdx' = IF write THEN snapIdx + 1 ELSE snapIdx
-            /\ bad' = bad \cup Tag(Rec.last = snapIdx, "snapindex")
+            /\ bad' = bad \cup Tag(Rec.last = snapIdx, "snapindex") \cup LoopTag("snap.dec", 0)
+            /\ Loop("snap.dec", 0)
             /\ UNCHANGED <<phase, expect, alloc, worked, run, ndumps>>
 TSnapFin == /\ IsEvent("snap.fin")
             /\ snapsExp' = IF Rec.stop = 0 THEN snapsExp \cup {snapIdx} ELSE snapsExp
-            /\ bad' = bad \cup Tag(Rec.last = snapIdx, "snapindex")
+            /\ bad' = bad \cup Tag(Rec.last = snapIdx, "snapindex") \cup LoopTag("snap.fin", 0)
+            /\ Loop("snap.fin", 0)
             /\ UNCHANGED <<phase, expect, alloc, worked, run, snapIdx, ndumps>>
 TDump == /\ IsEvent("fs.open") /\ ndumps' = ndumps + 1
-         /\ UNCHANGED <<phase, expect, alloc, worked, bad, run, snapsExp, snapIdx>>
+         /\ bad' = bad \cup LoopTag("fs.open", 0) /\ Loop("fs.open", 0)
+         /\ UNCHANGED <<phase, expect, alloc, worked, run, snapsExp, snapIdx>>
+\* loop events that carry nothing but their place in the loop
+TLoop == /\ l <= Len(TraceLog) /\ Rec.e \in {"run.init", "h.begin", "h.end", "dump.begin", "dump.end"} /\ l' = l + 1
+         /\ bad' = bad \cup LoopTag(Rec.e, Get(Rec, "step", 0)) /\ Loop(Rec.e, Get(Rec, "step", 0))
+         /\ UNCHANGED <<phase, expect, alloc, worked, run, snapsExp, snapIdx, ndumps>>
 TStart == /\ IsEvent("run.start") /\ phase' = "running"
-          /\ bad' = bad \cup Tag(phase = "new", "order") /\ UNCHANGED <<expect, alloc, worked, run, snapsExp, snapIdx, ndumps>>
+          /\ bad' = bad \cup Tag(phase = "new", "order") /\ UNCHANGED <<expect, alloc, worked, run, snapsExp, snapIdx, ndumps, loop>>
 TWork == /\ IsEvent("work") /\ worked' = TRUE
-         /\ bad' = bad \cup Tag(phase = "running", "order") /\ UNCHANGED <<phase, expect, alloc, run, snapsExp, snapIdx, ndumps>>
+         /\ bad' = bad \cup Tag(phase = "running", "order") /\ UNCHANGED <<phase, expect, alloc, run, snapsExp, snapIdx, ndumps, loop>>
 TEnter == /\ IsEvent("own.enter")
           /\ bad' = bad \cup Tag(AllZero(Rec.members), "uninit")
-          /\ UNCHANGED <<phase, expect, alloc, worked, run, snapsExp, snapIdx, ndumps>>
+          /\ UNCHANGED <<phase, expect, alloc, worked, run, snapsExp, snapIdx, ndumps, loop>>
 TAlloc == /\ IsEvent("own.alloc") /\ alloc' = Rec.members
-          /\ UNCHANGED <<phase, expect, worked, bad, run, snapsExp, snapIdx, ndumps>>
+          /\ UNCHANGED <<phase, expect, worked, bad, run, snapsExp, snapIdx, ndumps, loop>>
 TDelete == /\ IsEvent("own.delete")
            /\ bad' = bad \cup Tag(/\ Len(alloc) = Len(Rec.members)
                                   /\ \A i \in 1 .. Len(Rec.members) : Rec.members[i] = 1 => alloc[i] = 1, "dangling")
-           /\ UNCHANGED <<phase, expect, alloc, worked, run, snapsExp, snapIdx, ndumps>>
+           /\ UNCHANGED <<phase, expect, alloc, worked, run, snapsExp, snapIdx, ndumps, loop>>
 TEndRun == /\ IsEvent("run.end") /\ phase' = "ended"
-           /\ bad' = bad \cup Tag(phase = "running" /\ Rec.rc = 0, "status")
+           /\ bad' = bad \cup Tag(phase = "running" /\ Rec.rc = 0, "status") \cup LoopTag("run.end", 0)
+           /\ Loop("run.end", 0)
            /\ UNCHANGED <<expect, alloc, worked, run, snapsExp, snapIdx, ndumps>>
 TExit == /\ IsEvent("exit") /\ phase' = "exited"
          /\ bad' = bad \cup Tag(phase = "ended" /\ Rec.rc = 0, "status")
@@ -89,8 +117,8 @@ TExit == /\ IsEvent("exit") /\ phase' = "exited"
                        \cup Tag(run.dumpmodel = 1 /\ Rec.rc = 0 /\ ndumps > 0 =>
                                   /\ Rec.dump = 1
                                   /\ ToSet(Rec.backs) = 0 .. (Min(run.maxb, ndumps - 1) - 1), "dumpfiles")
-         /\ UNCHANGED <<expect, alloc, worked, run, snapsExp, snapIdx, ndumps>>
-Next == TRun \/ TSnapDec \/ TSnapFin \/ TDump \/ TStart \/ TWork \/ TEnter \/ TAlloc \/ TDelete \/ TEndRun \/ TExit
+         /\ UNCHANGED <<expect, alloc, worked, run, snapsExp, snapIdx, ndumps, loop>>
+Next == TRun \/ TLoop \/ TSnapDec \/ TSnapFin \/ TDump \/ TStart \/ TWork \/ TEnter \/ TAlloc \/ TDelete \/ TEndRun \/ TExit
 Spec == Init /\ [][Next]_vars
 
 ASSUME TLCSet(1, 0)
@@ -100,4 +128,6 @@ PrintMaxL == PrintT(<<"MAXL", TLCGet(1)>>)
 ExitsNormally == bad \cap {"status", "order", "nowork"} = {}
 OutputsWritten == bad \cap {"outputs", "snapshots", "snapindex", "dumpfiles"} = {}
 OwnershipProtocol == bad \cap {"uninit", "dangling"} = {}
+\* Layer B (MODEL-DRIFT when violated)
+LoopOrder == "loop" \notin bad
 =============================================================================
